@@ -171,6 +171,72 @@ theorem gtAll_eq_all (v : Value) (hv : (∃ n, v = .int n) ∨ (∃ a, v = .amt 
         simp only [ih]
         simp [ltOk, hr]
 
+/-! ### `Value.sortByComm` (the sorted walk of `<` on a balance) forgets the enumeration -/
+
+theorem sortByComm_ins_perm (x : Amount) : ∀ l : Balance, (Value.sortByComm.ins x l).Perm (x :: l) := by
+  intro l
+  induction l with
+  | nil => exact List.Perm.refl _
+  | cons y ys ih =>
+    unfold Value.sortByComm.ins
+    split
+    · exact ((List.Perm.cons y ih).trans (List.Perm.swap x y ys))
+    · exact List.Perm.refl _
+
+theorem sortByComm_perm : ∀ b : Balance, (Value.sortByComm b).Perm b := by
+  intro b
+  induction b with
+  | nil => exact List.Perm.refl _
+  | cons x xs ih =>
+    have : Value.sortByComm (x :: xs) = Value.sortByComm.ins x (Value.sortByComm xs) := rfl
+    rw [this]
+    exact (sortByComm_ins_perm x _).trans (List.Perm.cons x ih)
+
+theorem sortByComm_ins_sorted (x : Amount) : ∀ l : Balance, l.Pairwise (fun a b => a.comm ≤ b.comm) →
+    (Value.sortByComm.ins x l).Pairwise (fun a b => a.comm ≤ b.comm) := by
+  intro l
+  induction l with
+  | nil => intro _; exact List.pairwise_singleton _ _
+  | cons y ys ih =>
+    intro h
+    rw [List.pairwise_cons] at h
+    unfold Value.sortByComm.ins
+    split
+    · rename_i hlt
+      rw [List.pairwise_cons]
+      refine ⟨?_, ih h.2⟩
+      intro z hz
+      rcases List.mem_cons.mp ((sortByComm_ins_perm x ys).mem_iff.mp hz) with rfl | hz'
+      · exact String.not_lt.mp (String.lt_asymm hlt)
+      · exact h.1 z hz'
+    · rename_i hnlt
+      have hxy : x.comm ≤ y.comm := String.not_lt.mp hnlt
+      rw [List.pairwise_cons]
+      refine ⟨?_, List.pairwise_cons.mpr h⟩
+      intro z hz
+      rcases List.mem_cons.mp hz with rfl | hz'
+      · exact hxy
+      · exact String.le_trans hxy (h.1 z hz')
+
+theorem sortByComm_sorted : ∀ b : Balance, (Value.sortByComm b).Pairwise (fun a b => a.comm ≤ b.comm) := by
+  intro b
+  induction b with
+  | nil => exact List.Pairwise.nil
+  | cons x xs ih =>
+    have : Value.sortByComm (x :: xs) = Value.sortByComm.ins x (Value.sortByComm xs) := rfl
+    rw [this]
+    exact sortByComm_ins_sorted x _ ih
+
+/-- Two enumerations of one balance (distinct commodities) have the same sorted walk. -/
+theorem sortByComm_eq_of_perm {b b' : Balance} (hp : b.Perm b')
+    (hd : b.Pairwise (fun x y => x.comm ≠ y.comm)) : Value.sortByComm b = Value.sortByComm b' := by
+  refine List.Perm.eq_of_pairwise ?_ (sortByComm_sorted b) (sortByComm_sorted b')
+    ((sortByComm_perm b).trans (hp.trans (sortByComm_perm b').symm))
+  intro x y hx hy hxy hyx
+  have hxb : x ∈ b := (sortByComm_perm b).mem_iff.mp hx
+  have hyb : y ∈ b := hp.mem_iff.mpr ((sortByComm_perm b').mem_iff.mp hy)
+  exact eq_of_key_eq Amount.comm hd hxb hyb (String.le_antisymm hxy hyx)
+
 /-! ### keys of the accumulated transaction balance -/
 
 def hasKey (b : Balance) (c : Comm) : Prop := ∃ a ∈ b, a.comm = c
